@@ -120,6 +120,7 @@ func init() {
 				rb = 2
 			}
 			out = append(out, Instance{Scenario: "c10_register", Params: mustJSON(struct{}{}), Bound: rb, Shards: 16, Note: "the same under every schedule within the bound during and after the disturbance"})
+			out = append(out, Instance{Scenario: "c10_register", Params: mustJSON(RegisterParams{InPhase: true}), Bound: rb, Shards: 16, Note: "the leader's heart-beat and monitor rounds fall on the same instants (start-up delay a multiple of the 5 s period, as with the default)"})
 			out = append(out, Instance{Scenario: "c10_register", Params: mustJSON(struct{}{}), Bound: 0, Note: "real RPC client / handler code over an in-memory transport: registration, death, restart under the same name before / after the leader's next round"})
 			out = append(out, Instance{Scenario: "c11_burst", Params: mustJSON(BurstParams{Membership: "dynamic", MaxN: 2}), Bound: 0, Shards: 8, Note: "the numbering in effect is the one the STREAM follows: after bursts of renumberings (one arriving while the re-open of the previous one runs) exactly the vBuckets of the latest numbering are streamed"})
 			out = append(out, Instance{Scenario: "c10_lease", Params: mustJSON(struct{}{}), Bound: 0, Note: "driven from the lease: real leader_elector.go callbacks + real election handler + real RPC code; first election, leader restart in its pod while its former incarnation holds the lease, fail-over to the oldest follower"})
